@@ -36,7 +36,7 @@ type CLICase struct {
 
 func (cs *CLICase) key() string { b, _ := json.Marshal(cs); return HashString(string(b)) }
 
-var cliKinds = []string{"ok", "ok", "ok", "fail-missing", "fail-unused", "fail-cycle", "fail-multi", "fail-sig", "fail-partial", "noinj", "noinj-badset"}
+var cliKinds = []string{"ok", "ok", "ok", "fail-missing", "fail-unused", "fail-cycle", "fail-multi", "fail-sig", "fail-partial", "noinj", "noinj-badset", "noinj-blank"}
 
 var damageKinds = []string{"stale", "noncompiling", "garbage", "crlf", "nonl", "longer", "empty", "nopkgclause", "shorter"}
 
@@ -91,7 +91,7 @@ func genCLI(history bool) *rapid.Generator[*CLICase] {
 			if history {
 				return o
 			}
-			o.Header = rapid.SampledFrom([]string{"", "", "", "valid", "unreadable"}).Draw(t, "header")
+			o.Header = rapid.SampledFrom([]string{"", "", "", "valid", "valid", "unreadable", "invalid"}).Draw(t, "header")
 			o.Prefix = rapid.SampledFrom([]string{"", "", "", "zz_", "gen-"}).Draw(t, "prefix")
 			o.Tags = rapid.SampledFrom([]string{"", "", "extra"}).Draw(t, "tags")
 			return o
@@ -229,6 +229,7 @@ func runCLICase(c *Ctx, prop string, cs *CLICase) *Fail {
 		// expected status and writes
 		wantExit := 0
 		wantWrites := map[string]string{}
+		looseWrites := map[string]bool{}
 		anyFailGen, anyFailCheck := false, false
 		for _, p := range scope {
 			if p.failsGen() {
@@ -242,6 +243,20 @@ func runCLICase(c *Ctx, prop string, cs *CLICase) *Fail {
 		case "gen", "default":
 			if st.Opts.Header == "unreadable" {
 				wantExit = 1
+				break
+			}
+			if st.Opts.Header == "invalid" {
+				// a readable header that is not Go: formatting fails for every package that has output;
+				// the statement fixes the status (an error => non-zero), not the bytes left behind
+				for _, p := range scope {
+					if p.generates() {
+						wantExit = 1
+						looseWrites[outPath(p, st.Opts.Prefix)] = true
+					}
+				}
+				if anyFailGen {
+					wantExit = 1
+				}
 				break
 			}
 			if anyFailGen {
@@ -261,6 +276,12 @@ func runCLICase(c *Ctx, prop string, cs *CLICase) *Fail {
 			switch {
 			case st.Opts.Header == "unreadable" || anyFailGen:
 				wantExit = 2
+			case st.Opts.Header == "invalid":
+				for _, p := range scope {
+					if p.generates() {
+						wantExit = 2
+					}
+				}
 			default:
 				for _, p := range scope {
 					if p.generates() {
@@ -291,6 +312,11 @@ func runCLICase(c *Ctx, prop string, cs *CLICase) *Fail {
 		for _, ch := range changed {
 			path := ch[1:]
 			want, isOut := wantWrites[path]
+			if looseWrites[path] {
+				b, _ := os.ReadFile(filepath.Join(w.dir, path))
+				disk[path] = string(b)
+				continue
+			}
 			if !isOut {
 				return Failf(prop+" command touched a file outside its contract", "%s %v on %v: %s (expected writes: %v)", where, st.Opts, patterns, ch, SortedKeys(wantWrites))
 			}
@@ -306,6 +332,11 @@ func runCLICase(c *Ctx, prop string, cs *CLICase) *Fail {
 			}
 		}
 		// files of failing packages and everything else stayed byte-identical: implied by the delta check above.
+		if (st.Op == "gen" || st.Op == "default") && st.Opts.Header == "invalid" {
+			// the files just written start with text that is not Go, so they no longer carry the
+			// build constraint: whatever follows is outside the property's domain
+			return nil
+		}
 		if st.Op == "gen" || st.Op == "default" {
 			for _, i := range scopeIdx {
 				lastGenOK[i] = wantExit == 0 && st.Opts.Prefix == "" && pkgs[i].generates()
